@@ -319,11 +319,13 @@ def get_harness(out):
         return None
 
 
-def fault_field(missing, model=False):
-    """missing: list of 'T' or content bytes"""
+def fault_field(missing, model=False, mid=False):
+    """missing: list of 'T' or content bytes; mid (implementation only): the blobs stay but reading them breaks half way --
+    for the model an unreadable blob is a missing blob"""
     if not missing:
         return "-"
-    return ",".join("T" if m == "T" else (hx(sha16(m)) if model else "c" + sha16(m)) for m in missing)
+    pre = "m" if (mid and not model) else ""
+    return ",".join((pre + "T") if m == "T" else (hx(sha16(m)) if model else pre + "c" + sha16(m)) for m in missing)
 
 
 def replay_of(kind, **kw):
@@ -355,8 +357,9 @@ def restore_fault_cases(out, tier, rng=None, harness=None):
               [("d", b"d", [("f", b"a", b"x", 0o644)]), ("d", b"e", [("f", b"a", b"x", 0o644)])],   # de-duplicated children
               [("f", b"a", b"x", 0o644), ("f", b"b", b"x", 0o644), ("d", b"d", [])],    # duplicate content: one blob, two downloads
               [("d", b"d", [("d", b"e", [("d", b"f", [("f", b"a", b"x", 0o644), ("f", b"b", b"y", 0o644)])])])],
+              [("f", b"big", b"A" * 100000, 0o644), ("f", b"b", b"y", 0o644)],        # a blob larger than one io.Copy chunk
               []]
-    cases = []   # (tree, dest, missing)
+    cases = []   # (tree, dest, missing[, mid-stream read fault instead of deletion])
     for n in range(ntrees):
         tree = shapes[n] if n < len(shapes) else gen_tree(r, budget=25)
         stats["trees"] += 1
@@ -364,13 +367,17 @@ def restore_fault_cases(out, tier, rng=None, harness=None):
         singles = blobs if len(blobs) <= per_tree else ["T"] + r.sample(blobs[1:], per_tree - 1)
         for b in singles:
             cases.append((tree, ("A",), [b])); stats["single_faults"] += 1
+            if n < len(shapes) or r.chance(1, 2):
+                cases.append((tree, ("A",), [b], True)); stats["midstream_read_faults"] = stats.get("midstream_read_faults", 0) + 1
         if len(blobs) > 2:
             for _ in range(2):
                 cases.append((tree, perturb(r, tree, r.choice(["absent", "modified", "extra", "file", "noparent"])),
                               r.sample(blobs, 2 + r.below(len(blobs) - 1)))); stats["multi_faults"] += 1
         if n % 5 == 0:   # nothing to restore: faults must not matter
             cases.append((tree, ("D", copy.deepcopy(tree)), blobs))
-    lines = ["dir\t%s\t%s\t%s\t%s" % (ALGOS[i % 2], tree_field(t), dest_field(d), fault_field(m)) for i, (t, d, m) in enumerate(cases)]
+    mids = [len(c) > 3 and c[3] for c in cases]
+    cases = [c[:3] for c in cases]
+    lines = ["dir\t%s\t%s\t%s\t%s" % (ALGOS[i % 2], tree_field(t), dest_field(d), fault_field(m, mid=mids[i])) for i, (t, d, m) in enumerate(cases)]
     mlines = ["dir\t%s\t%s\t%s" % (tree_field(t, True), dest_field(d, True), fault_field(m, True)) for t, d, m in cases]
     impl = run_harness(h, lines)
     model = run_model(mlines)
@@ -392,7 +399,8 @@ def restore_fault_cases(out, tier, rng=None, harness=None):
             out.violation("directory restore crashed: %s" % unhx(f[-1]).decode("latin-1")[:200], rp)
         elif cls == "ok":
             if parse_listing(f[3]) != parse_listing(f[2]):
-                out.violation("restore with deleted cache entries reported success but the directory differs from what was cached", rp)
+                out.violation("restore with %s cache entries reported success but the directory differs from what was cached" % (
+                    "unreadable (read error half way)" if mids[i] else "deleted"), rp)
         if cls in ("ok", "error", "hang") and mo[0] == "ok" and mo[1] != cls:
             stats["model_mismatches"] += 1
             if not any(not v["no_input"] for v in out.violations):
